@@ -21,8 +21,17 @@ PUSH_CURATED = [
 PUSH_ALPHA = ["A(0)", "A(1)", "S(%d,1)", "S(%d,0)", "T(0,1)", "T(1,1)", "T(0,0)", "C(0)", "X(0)", "B(0)", "B(1)", "B(2)"]
 
 
+# the send buffer is changed while it is full AND its ring has rotated (a message was taken out and another queued behind it): nothing accepted is lost,
+# order kept; every event must be applicable (MUSTEND)
+PUSH_RING = ["B(2) S(0,1) S(1,1) A(0) S(2,1) B(4) T(0,1) T(0,1) T(0,1) Z", "B(2) S(0,1) S(1,1) A(0) S(2,1) B(2) T(0,1) T(0,1) T(0,1) Z",
+             "B(2) S(0,1) S(1,1) A(0) S(2,1) B(3) T(0,1) T(0,1) T(0,1) Z", "B(2) S(0,1) S(1,1) A(0) T(0,1) S(2,1) S(3,1) B(4) T(0,1) T(0,1) T(0,1) Z"]
+
+
 def queries(tier):
     qs = []
+    for w in PUSH_RING:
+        qs.append(Query("push-ring-" + skel.tag(w), "c06/push.c", tus=TUS, env=ENV, defs={"SKEL": w, "MUSTEND": 1}, unwind=10, unwind_rules=KIT_RULES, timeout=300,
+                        params={"protocol": "push0", "skeleton": w, "every_event_applicable": True}))
     words = list(PUSH_CURATED)
     words += skel.enumerate_words(PUSH_ALPHA, 3 if tier == "quick" else 4, first=["A(0)", "S(%d,1)", "S(%d,0)", "B(1)", "B(2)"],
                                   limit=150 if tier == "quick" else 3000)
